@@ -1055,6 +1055,34 @@ fn compile_context_bundle_for_run(
     })
 }
 
+/// Verification export: run the context compile for a run link and return the
+/// decision + compiled cut as JSON (the bundle itself is the written artifact).
+#[cfg(rip_verif)]
+pub fn verif_compile_context_bundle_for_run(
+    continuities: &ContinuityStore,
+    event_log: &EventLog,
+    snapshot_dir: &Path,
+    run: &ContinuityRunLink,
+    run_session_id: &str,
+) -> Result<Value, String> {
+    let outcome =
+        compile_context_bundle_for_run(continuities, event_log, snapshot_dir, run, run_session_id)?;
+    let ContextCompileOutcomeForRun { decision, compiled } = outcome;
+    Ok(serde_json::json!({
+        "compiler_id": decision.compiler_id,
+        "compiler_strategy": decision.compiler_strategy,
+        "limits": decision.limits,
+        "compaction_checkpoint": decision.compaction_checkpoint,
+        "compaction_checkpoints": decision.compaction_checkpoints,
+        "resets": decision.resets,
+        "reason": decision.reason,
+        "bundle_artifact_id": compiled.bundle_artifact_id,
+        "items": compiled.items.iter().map(|item| item.value().clone()).collect::<Vec<Value>>(),
+        "from_seq": compiled.from_seq,
+        "from_message_id": compiled.from_message_id,
+    }))
+}
+
 struct OpenResponsesRunContext<'a> {
     http: &'a reqwest::Client,
     config: &'a OpenResponsesConfig,
@@ -1601,7 +1629,11 @@ async fn emit_event(
     buffer: &Arc<Mutex<Vec<Event>>>,
     event_log: &EventLog,
 ) {
+    #[cfg(rip_verif)]
+    rip_kernel::verif::point("sess.publish");
     let _ = sender.send(event.clone());
+    #[cfg(rip_verif)]
+    rip_kernel::verif::lock_point("sess.buffer", &|| buffer.try_lock().is_ok());
     let mut guard = buffer.lock().await;
     guard.push(event.clone());
     let _ = event_log.append(&event);
